@@ -95,6 +95,7 @@ func HarnessC02Seq() {
 	ctx := context.Background()
 	var total, pending, deltaSum, lastCum [3]int64
 	var everSeen, pendingSeen [3]bool
+	anyNeg := false
 	nsets := vndParam("SETS", 2)
 	k := vndParam("K", 4)
 	check := func(kind int) {
@@ -133,7 +134,7 @@ func HarnessC02Seq() {
 				if pts[i].present {
 					vndAssert(pts[i].value == total[i], "cumulative-value-is-running-total")
 					if mono {
-						vndAssert(pts[i].value >= lastCum[i], "monotonic-sum-never-decreases")
+						vndAssert(vndOr(anyNeg, pts[i].value >= lastCum[i]), "monotonic-sum-never-decreases")
 					}
 					lastCum[i] = pts[i].value
 				}
@@ -148,7 +149,11 @@ func HarnessC02Seq() {
 		case 0:
 			v := vndI64()
 			if mono {
-				vndAssume(vndAnd(v >= 0, v <= 1<<40))
+				// a counter is meant for non-negative increments, but what is
+				// recorded is what must be reported: negative inputs are summed too;
+				// "never decreases" is claimed for non-negative inputs only
+				vndAssume(vndAnd(v >= -(1<<40), v <= 1<<40))
+				anyNeg = vndOr(anyNeg, v < 0)
 			}
 			si := vndChoice(nsets)
 			md(ctx, v, aggSets[si])
